@@ -38,7 +38,7 @@ Print Assumptions partial_sound_refuted.
 Theorem partial_genuine_partial :
   forall off (ps : list path) d e,
     post off ps = Some d -> In e d ->
-    exists p, In p ps /\ p <> [] /\ e = entry_of (lat_sum p, lat_path off p).
+    exists p, In p ps /\ p <> [] /\ e = entry_of (lat_sum (lat_path off p), lat_path off p).
 Proof. exact partial_genuine_lemma. Qed.
 Print Assumptions partial_genuine_partial.
 
